@@ -164,6 +164,9 @@ func RunMutants(id string, r *core.Report, standalone bool) int {
 	}
 	bad := 0
 	for _, m := range pr.Controls() {
+		if f := os.Getenv("VERIF_MUTANT"); f != "" && !strings.Contains(m.Name, f) {
+			continue
+		}
 		c := runMutant(pr, m)
 		if m.Silent {
 			if c.Status == "alarmed" {
